@@ -42,8 +42,22 @@ def prepare(seed, tier):
                 raise SystemExit(f"hcfg build failed for configuration {name}")
 
 
+TENCC = {"f32": ("f32", "x{0}"), "f64": ("f64", "x{0}"), "opt_f32": ("opt(f32)", "S(x{0})"), "tagged_f32": ("tagged(5,f32)", "x{0}"),
+         "tup_f32_f64": ("tup(f32,f64)", "[x{0},x{1}]"), "arr2_f64": ("arr(2,f64)", "[x{0},x{1}]"), "range_f64": ("fields(f64,f64)", "[x{0},x{1}]"),
+         "u64": ("u64", "{0}"), "i64": ("i64", "{0}"), "opt_u8": ("opt(u8)", "S({0})"), "char": ("char", "{0}"), "bool": ("bool", "{0}"),
+         "unit": ("unit", "U"), "str": ("str", "s{0}"), "duration": ("duration", "[{0},{1}]")}
+
+
 def model_op(op, alloc, half):
     w = op.split(" ")
+    if w[0] == "tencc":
+        d, f = TENCC[w[1]]
+        if w[2] == "N":
+            return f"tenc {d} N"
+        a = w[2].split(",")
+        if w[1] == "bool":
+            a = ["T" if a[0] == "1" else "F"]
+        return f"tenc {d} {f.format(*a)}"
     if w[0] == "dec":
         a = w[1]
         if a.startswith("t:"):
@@ -144,6 +158,22 @@ def corpus(rng, tier):
         ops.append(f"enc bytes {gen.hexb(gen.rand_bytes(rng, n))}")
         ops.append(f"enc str {gen.hexb(bytes(rng.randint(0x20, 0x7e) for _ in range(n)))}")
     ops += encseq_ops(rng, 1500 if q else 30000)
+    # the built-in Encode / CborLen impls (not the Encoder methods): same bytes and same length whatever the features
+    F32 = [0, 0x80000000, 0x3f800000, 0x7f800000, 0xff800000, 0x7fc00000, 0xffc00000, 0x7fc00001, 0x7f800001, 0x7fe00000, 0x7f802000, 0x38800000, 0x33800000,
+           0x477fe000, 0x00000001, 0x3c000000, 0x7f7fffff] + [rng.getrandbits(32) for _ in range(40 if q else 2000)]
+    F64 = [0, 1 << 63, 0x3ff0000000000000, 0x7ff0000000000000, 0xfff0000000000000, 0x7ff8000000000000, 0xfff8000000000000, 0x7ff8000000000001,
+           0x7ffc000000000000, 0x7ff0040000000000, 0x3f10000000000000, 0x40effc0000000000, 0x36a0000000000000, 1] + [rng.getrandbits(64) for _ in range(40 if q else 2000)]
+    for b in F32:
+        ops += [f"tencc f32 {b:08x}", f"tencc opt_f32 {b:08x}", f"tencc tagged_f32 {b:08x}", f"tencc tup_f32_f64 {b:08x},{rng.choice(F64):016x}"]
+    for b in F64:
+        ops += [f"tencc f64 {b:016x}", f"tencc arr2_f64 {b:016x},{rng.choice(F64):016x}", f"tencc range_f64 {rng.choice(F64):016x},{b:016x}"]
+    ops.append("tencc opt_f32 N")
+    for v in B:
+        ops.append(f"tencc u64 {v}")
+        if v < 2**63: ops += [f"tencc i64 {-1 - v}", f"tencc i64 {v}"]
+        if v < 256: ops.append(f"tencc opt_u8 {v}")
+    ops += ["tencc opt_u8 N", "tencc bool 0", "tencc bool 1", "tencc unit -", "tencc char 65", "tencc char 233", "tencc char 8364", "tencc char 1114111",
+            "tencc str -", "tencc str 68656c6c6f", "tencc str " + "61" * 24, "tencc duration 0,0", "tencc duration 5,999999999", f"tencc duration {2**64 - 1},1"]
     # successive to_vec calls on one thread (alloc and std builds): a result must not depend on the calls before it
     for _ in range(200 if q else 3000):
         calls = [rng.choice(["f", "f", f"u8:{rng.choice([0, 5, 24, 255])}", "str:" + gen.hexb(bytes(rng.randint(0x61, 0x7a) for _ in range(rng.choice([0, 1, 5, 24, 300]))))])
@@ -227,6 +257,11 @@ def serde_corpus(rng, tier):
     for x in ["7f6161616262ff", "5f4101420203ff", "7fff", "5fff", "83017f6161ff02", "a17f6161ff05", "a1057f6161ff", "7f61", "7f6161", "5f41ff",
               "827f6161ff5f4101ff", "9f7f6161ffff", "c17f6161ff", "7f4101ff", "5f6161ff", "7f62c328ff", "7f61c361a9ff"]:
         ops.append(f"sde any {x}")
+    # maps with a repeated key (what a bridge does about them — nothing, here — must not depend on whether it could allocate a key set)
+    for x in ["a201020103", "a2616101616102", "bf01020103ff", "a3010201030104", "a2410101410102", "a201a201020103010a", "a2f601f602", "a28001800" + "2",
+              "a2616101616102", "82a201020103a2616101616102", "a4616101616201616103616204", "bf616101616102ff", "a2f97e0001f97e0002", "a2fa7fc0000001fa7fc0000002"]:
+        ops.append(f"sde any {x}")
+        ops.append(f"sde ignored {x}")
     for v in (0, 9, 10, 255, 65536, 2**64 - 1):
         ops.append(f"sser shown {v}")
     # IgnoredAny (what a derived struct uses for unknown fields): skips one item whatever it is, in every configuration
